@@ -5,6 +5,8 @@
   parsed value is a `Val`; typed decoding is the model's `Dec` (C03's subject), `cache_timezone_component` is the
   model's `tzok`.  Shared by ICal/Lemmas/BodiesParse.lean (the equality proof) and ICal/Driver/BodiesParse.lean
   (the differential op `body_parse`), so that what is run against `icalendar` is what the theorem speaks of.
+  The pieces are given BY NAME: the order of the generated parameters follows their first use in the source, and two
+  parameters of one type (`ignore_exceptions`, `is_timezone`) must not change places silently when the source changes.
 -/
 import ICal.Gen.BodiesParse
 import ICal.Model.Parse
@@ -44,13 +46,20 @@ def addP : PComp → Str → Val → PComp | .mk n p s e, nm, v => .mk n (addEnt
 
 /-- the translated loop with the model's pieces -/
 def loopP (tzok : Comp → Bool) (dec : Dec) : List PComp → List PComp → List Str → Py (List PComp × List PComp) :=
-  Component_from_ical_loop1 partsP ignoreP errorsAppendP id instantiateP nameOfP setNameP addComponentP isTimezoneP hasPropertyP
-    (cacheP tzok) forProperty isTextClassP rawValue paramsHasP (decodeTzP dec) (decodeP dec) setParamsP addP
+  Component_from_ical_loop1 (parts := partsP) (ignore_exceptions := ignoreP) (errors_append := errorsAppendP) (component_class := id)
+    (instantiate := instantiateP) (name_of := nameOfP) (set_name := setNameP) (add_component := addComponentP)
+    (is_timezone := isTimezoneP) (has_property := hasPropertyP) (cache_timezone_component := cacheP tzok)
+    (for_property := forProperty) (is_text_class := isTextClassP) (raw_value := rawValue) (params_has := paramsHasP)
+    (decode_tz := decodeTzP dec) (decode := decodeP dec) (set_params := setParamsP) (add := addP)
 
 /-- `Component.from_ical` with the model's pieces -/
 def fromIcalP (tzok : Comp → Bool) (dec : Dec) (st : Str) (multiple : Bool) : Py (PyResult PComp) :=
-  Component_from_ical st multiple linesFromIcal partsP ignoreP errorsAppendP id instantiateP nameOfP setNameP addComponentP isTimezoneP
-    hasPropertyP (cacheP tzok) forProperty isTextClassP rawValue paramsHasP (decodeTzP dec) (decodeP dec) setParamsP addP
+  Component_from_ical (st := st) (multiple := multiple) (lines_from_ical := linesFromIcal) (parts := partsP)
+    (ignore_exceptions := ignoreP) (errors_append := errorsAppendP) (component_class := id)
+    (instantiate := instantiateP) (name_of := nameOfP) (set_name := setNameP) (add_component := addComponentP)
+    (is_timezone := isTimezoneP) (has_property := hasPropertyP) (cache_timezone_component := cacheP tzok)
+    (for_property := forProperty) (is_text_class := isTextClassP) (raw_value := rawValue) (params_has := paramsHasP)
+    (decode_tz := decodeTzP dec) (decode := decodeP dec) (set_params := setParamsP) (add := addP)
 
 /-- what the caller observes of the result: the trees and the error log (`parseText`'s view); `none` = it raised -/
 def fromIcalTrees (tzok : Comp → Bool) (dec : Dec) (multiple : Bool) (st : Str) : Option (List Comp × List (Str × Str)) :=
